@@ -51,17 +51,30 @@ func verifNopImage() []byte {
 // C26 (1): one runFrame on a quiet machine (CPU executing NOPs from ROM, interrupts off, sound outputs detached):
 // every component has advanced by exactly 17556 machine cycles, measured through its own progress counter.
 func VerifRunFrame() {
-	timerOn := vCfg("timer") != 0
+	timerMode := vCfg("timer") // 0 off (divider phase symbolic), 1 fastest rate, 2 a single overflow landing on the very last cycle
+	timerOn := timerMode != 0
 	withDisplay := vCfg("display") != 0
+	lcdOn := vCfg("lcd") != 0
 	gb := newVerifGameboy(verifNopImage(), withDisplay, false)
 	if withDisplay {
 		gb.display.CloseAfter = int(vU8("closeAfter") & 3)
 	}
+	if !lcdOn {
+		gb.mapper.Write(0xff40, 0x11)
+	}
 	var div0 uint16
-	if timerOn {
+	switch timerMode {
+	case 1:
 		gb.mapper.Write(0xff07, 0x05) // fastest rate: the counter must stay concrete for the edge detector
 		div0 = gb.timer.VerifCounter()
-	} else {
+	case 2:
+		// 1024-clock rate, divider phased so that TIMA increments in cycles 148, 404, ... 17556 (69 times) and overflows
+		// exactly once, in the last machine cycle of the frame
+		div0 = 432
+		gb.timer.VerifSetCounter(div0)
+		gb.mapper.Write(0xff05, 256-69)
+		gb.mapper.Write(0xff07, 0x04)
+	default:
 		div0 = vU16("counter") // the divider from every phase
 		gb.timer.VerifSetCounter(div0)
 	}
@@ -74,14 +87,19 @@ func VerifRunFrame() {
 		closeAfter = gb.display.CloseAfter
 	}
 
-	ret := gb.runFrame(newVerifCtx(0))
+	// the context may already be cancelled: a frame that has started still runs to its end (Run polls between frames)
+	ret := gb.runFrame(newVerifCtx(vCfg("cancelled")))
 
 	vAssert("cpu-17556-cycles", gb.cpu.VerifPC() == pc0+17556)
 	vAssert("timer-17556-cycles", gb.timer.VerifCounter() == div0+4*17556%65536)
 	vAssert("memory-clock-17556-cycles", gb.mapper.VerifRtcTicks() == r0+17556)
 	vAssert("audio-17556-cycles", gb.audio.VerifTicks() == a0+4*17556)
-	vAssert("video-17556-cycles", gb.ppu.VerifTicks() == 2) // first frame after switch-on: index after k calls is k+2 (mod 17556)
-	vAssert("vblank-requested", gb.interrupts.ReadIF()&0x01 != 0)
+	if lcdOn {
+		vAssert("video-17556-cycles", gb.ppu.VerifTicks() == 2) // first frame after switch-on: index after k calls is k+2 (mod 17556)
+		vAssert("vblank-requested", gb.interrupts.ReadIF()&0x01 != 0)
+	} else {
+		vAssert("video-off", gb.ppu.VerifTicks() == 0 && gb.interrupts.ReadIF()&0x01 == 0)
+	}
 	vAssert("timer-irq-iff-overflow", (gb.interrupts.ReadIF()&0x04 != 0) == timerOn)
 	if withDisplay {
 		vAssert("frame-handed-to-display", gb.display.Frames == 1 && gb.display.LastFrame == gb.ppu.Frame())
